@@ -14,11 +14,15 @@ TB = ("Trusted: Lean 4.33 kernel; axioms propext/Classical.choice/Quot.sound onl
 # pid -> (full|partial, text, note, technique)
 CHECKS = {
     "C01": ("full",
-            "Lean theorems (C01.lt_iff_lex, le_iff_lt_or_eq, gt/ge_iff_swap, trichotomy/irrefl/asymm/trans, weighted_order_neg/pos, "
-            "values_roundtrip, dominates_iff(+pointwise), valid_history, clone_eq, cclone_eq, constrained_table/both/neither) hold for every "
-            "linearly ordered field, every tuple length and every index list; model Core/Fitness.lean is diffed against deap.base on an "
-            "exhaustive small domain plus random dyadic inputs, and the statement itself is evaluated as an oracle on the real objects.",
-            TB + "IEEE products of the small dyadic test inputs are exact (model uses Rat); CPython tuple comparison/slicing modelled in Core/Py.lean.",
+            "Lean theorems (C01.lt_iff_lex, le_iff_lt_or_eq, gt/ge_iff_swap, trichotomy/irrefl/asymm/trans, weighted_order_neg/pos, lt_weighted_iff (the order on the "
+            "RAW values: first differing objective decides, a negative weight makes the smaller value better), gt_single_neg, values_roundtrip, dominates_iff(+pointwise), "
+            "dominates_imp_gt, valid_history, cvalid_history and cdel_clears for constrained fitnesses, constrained_table/both/neither) hold for every linearly ordered "
+            "field, every tuple length and every index list; model Core/Fitness.lean is diffed against deap.base on an exhaustive small domain, random dyadic inputs, "
+            "near-ties a few ulps apart, constrained histories (assign / set violation record incl. numeric records / delete in every order), and the statement itself "
+            "is evaluated as an oracle on the real objects. Clone equality (clone_eq, cclone_eq) and the no-aliasing of assigned containers hold by construction in the "
+            "model (a value has no identity) and rest on the oracle: clones compared on the real objects, assigned lists mutated afterwards.",
+            TB + "IEEE products of the test inputs are exact (weights +-1 for the near-tie stream, small dyadics otherwise; model uses Rat); CPython tuple comparison/slicing "
+            "modelled in Core/Py.lean; the read-back clause is demanded for weights +-1 only, as the statement says.",
             "Lean 4 proof over a hand-written model + differential correspondence + oracle"),
     "C02": ("full",
             "Lean theorems C02.varAnd_/varOr_{count, parents_unchanged, inputs_unchanged, fresh, not_input, distinct, touched_invalid, "
@@ -161,15 +165,6 @@ CHECKS = {
             "Core/Logbook.lean diffed after every op against deap.tools.Logbook (deep chapter comparison); statement evaluated as oracle with plain list semantics.",
             TB + "text parser (rid >= 100000, header line = cell 'rid'); records with uniform chapter names at every level; column formatting not modelled; "
             "stream_*_once need pairwise different records (equal records cannot be told apart in the text).",
-            "Lean 4 proof over a hand-written model + differential correspondence + oracle"),
-    "C05": ("full",
-            "Lean theorems C05.* (selection_size, selection_subperm, front_priority, one_partial_front_crowding_cut, backend_agnostic, crowding_spec, "
-            "selNSGA2_standard, selNSGA2_log_partial) hold over every ordered field for any list of fronts meeting C04's specification (proved for the standard "
-            "back-end, per-run certified for the log-time one); crowding_spec shows assignCrowdingDist equals the statement's formula on pairwise-distinct fronts. "
-            "The correspondence replays the cut on the implementation's fronts and float distances, compares distances exactly or within 1e-9, and whole selNSGA2 "
-            "on an exact family; the contract is evaluated as an oracle on the returned objects for both nd values.",
-            TB + "float distances are compared with tolerance outside the exact family; the log back-end's fronts satisfy the spec by C04's per-run certificate, "
-            "not by a general proof.",
             "Lean 4 proof over a hand-written model + differential correspondence + oracle"),
     "C03": ("full",
             "Lean theorems (C03.truthful, evals_exact, nevals_logged, log_shape(+_gu), hof_fed, every_boundary, eaSimple/eaMuPlusLambda/eaMuCommaLambda/"
